@@ -402,7 +402,13 @@ var dirNames = []string{"a", "b", "pkg", "views", "vendor", "node_modules", ".gi
 	"two\nlines", "sp ace", "tab\there", "semi;colon", "quote'", "pct%20", "dollar$HOME", "[brackets]", "star*", "+plus", "caret^", "(paren)", "pipe|", "back\\slash", "é✓"}
 
 func validTempl(pkg string, n int, variant int) string {
-	switch variant % 5 {
+	switch variant % 7 {
+	case 5:
+		// Go code that gofmt rewrites: spacing, grouped declarations on one line, number literals
+		// with upper-case prefixes and exponents
+		return fmt.Sprintf("package %s\n\nimport \"fmt\"\n\nconst   mask%d=0XFF\nvar ( a%d = 1E3 ; b%d   = 0B101 )\n\ntempl T%d() {\n\t<p>{ fmt.Sprint( mask%d ,a%d,b%d , 0O17) }</p>\n}\n", pkg, n, n, n, n, n, n, n)
+	case 6:
+		return fmt.Sprintf("package %s\n\nimport \"fmt\"\n\ntempl T%d(n int) {\n\t{{ x%d:=n+0X10 }}\n\tif n>0X1 {\n\t\t<i>{ fmt.Sprint(x%d,0X1P-2) }</i>\n\t}\n}\n", pkg, n, n, n)
 	case 0:
 		return fmt.Sprintf("package %s\n\ntempl T%d(s string) {\n\t<div id=\"%d\">{ s }</div>\n}\n", pkg, n, n)
 	case 1:
@@ -473,12 +479,12 @@ var genCase = rapid.Custom(func(t *rapid.T) Case {
 		}
 		switch kind := rapid.IntRange(0, 11).Draw(t, "kind"); {
 		case kind <= 4: // valid templ, maybe with an existing generated file
-			add(File{Path: p(stem + ".templ"), Content: validTempl("p", i, rapid.IntRange(0, 4).Draw(t, "variant")), Age: age})
+			add(File{Path: p(stem + ".templ"), Content: validTempl("p", i, rapid.IntRange(0, 6).Draw(t, "variant")), Age: age})
 			switch rapid.IntRange(0, 5).Draw(t, "existing") {
 			case 4: // a stale generated file that is much longer than what will be generated
 				add(File{Path: p(stem + "_templ.go"), Content: "package p\n\n// stale and long\n" + strings.Repeat("// left over from a bigger version of the template\n", 40+rapid.IntRange(0, 200).Draw(t, "pad")), Age: age + 1 + rapid.IntRange(0, 50).Draw(t, "older")})
 			case 5: // the generated file of another, valid template (possibly longer or shorter)
-				if g, _, err := tc.Generate(validTempl("p", i+100, rapid.IntRange(0, 4).Draw(t, "oldVariant")), stem+".templ"); err == nil {
+				if g, _, err := tc.Generate(validTempl("p", i+100, rapid.IntRange(0, 6).Draw(t, "oldVariant")), stem+".templ"); err == nil {
 					add(File{Path: p(stem + "_templ.go"), Content: g.Go, Age: age + 1 + rapid.IntRange(0, 50).Draw(t, "older")})
 				}
 			case 1:
@@ -521,7 +527,7 @@ var genCase = rapid.Custom(func(t *rapid.T) Case {
 			edited[path] = true
 			switch k := rapid.IntRange(0, 9).Draw(t, "editKind"); {
 			case k <= 5:
-				c.Edits = append(c.Edits, Edit{Path: path, Content: validTempl("p", 200+i, rapid.IntRange(0, 4).Draw(t, "editVariant"))})
+				c.Edits = append(c.Edits, Edit{Path: path, Content: validTempl("p", 200+i, rapid.IntRange(0, 6).Draw(t, "editVariant"))})
 			case k == 6:
 				c.Edits = append(c.Edits, Edit{Path: path, Content: "package p\n\ntempl Tiny() {\n}\n"})
 			case k == 7:
